@@ -33,4 +33,28 @@ pub fn run(r: &mut Report) {
         let res = no_panic(|| DSSEVersion::V1.unpack(b).map(|_| ()).map_err(|e| e.to_string()));
         r.case("pae-total", json!({"bytes": String::from_utf8_lossy(b)}), "Ok or Err, no panic", format!("{:?}", res), res.is_ok());
     }
+    // thorough: every byte string over the framing alphabet up to 6 bytes after the fixed prefix decodes to a pair or an error
+    if crate::util::thorough() {
+        let alpha: [u8; 7] = [b' ', b'0', b'1', b'2', b'9', b'a', 0xff];
+        let mut total = 0u64;
+        let mut panics = 0u64;
+        let mut first: Option<Vec<u8>> = None;
+        for len in 0..=6usize {
+            let mut idx = vec![0usize; len];
+            loop {
+                let mut b = b"DSSEv1 ".to_vec();
+                b.extend(idx.iter().map(|i| alpha[*i]));
+                total += 1;
+                if no_panic(|| DSSEVersion::V1.unpack(&b).map(|_| ()).map_err(|_| ())).is_err() {
+                    panics += 1;
+                    if first.is_none() { first = Some(b.clone()); }
+                }
+                let mut k = 0;
+                while k < len { idx[k] += 1; if idx[k] < alpha.len() { break; } idx[k] = 0; k += 1; }
+                if k == len { break; }
+            }
+        }
+        r.case("pae-total-exhaustive", json!({"alphabet": "space 0 1 2 9 a 0xff", "max_len_after_prefix": 6, "inputs": total}),
+               "no panic", format!("{} panics, first: {:?}", panics, first.map(|b| String::from_utf8_lossy(&b).to_string())), panics == 0);
+    }
 }
